@@ -81,6 +81,7 @@ func runC12(c *Ctx) {
 	c.Rule("C12.R4", "removal deletes the live entry and records the removal for the same name", 3)
 	c.Rule("C12.R5", "recorders store what they are given on every path (skips only for nil, missing key, DeepEqual)", 7)
 	c.Rule("C12.R6", "a new cluster is published in the live registry only after the update handler filled it", 2)
+	c.Rule("C12.R7", "live virtual-host positions equal configuration positions (no virtual host skipped; recorded index = config index)", 2)
 	c.NotDecided = append(c.NotDecided, "observational equivalence of the live state with a MOSN restarted from the dump (needs running both)", "xDS conversion of individual fields")
 
 	isNilErrReturn := func(in ssa.Instruction) bool {
@@ -416,6 +417,7 @@ func runC12(c *Ctx) {
 
 	c12Recorders(c)
 	c12PublishAfterInit(c)
+	c12IndexAligned(c)
 
 	// R3
 	replace := map[string]int{"TriggerClusterHostUpdate": 0, "UpdateClusterHosts": 0, "AddOrUpdateRouters": 0}
